@@ -63,6 +63,14 @@ func gen(g *mon.Gen) {
 				}
 			}
 		}
+		// the ends of the address space with the low quantities (0 included) and the ones around the limits: address
+		// arithmetic that only misbehaves at start 0 or when start+quantity reaches 65536
+		for _, fc := range []uint8{1, 2, 3, 4} {
+			for _, addr := range []uint16{0, 1, 65535, 65534, 65411, 63536, 63535} {
+				g.Emit(&Case{Kind: "qty", FC: fc, Framing: fr, Addr: addr, Unit: libx.U8(rng), TID: libx.U16(rng), Lo: 0, Hi: 2100})
+				g.Emit(&Case{Kind: "qty", FC: fc, Framing: fr, Addr: addr, Unit: libx.U8(rng), TID: libx.U16(rng), Lo: 65400, Hi: 65535})
+			}
+		}
 		for k := 0; k < g.Pick(4, 24); k++ {
 			for lo := 0; lo <= 2100; lo += 300 {
 				g.Emit(&Case{Kind: "fc15", FC: 15, Framing: fr, Addr: libx.U16(rng), Unit: libx.U8(rng), TID: libx.U16(rng), Lo: lo, Hi: min(lo+299, 2100), Seed: rng.Int63()})
